@@ -105,6 +105,14 @@ CHECKS = {
             "15 ms delay at rd.memtable_flow_start resp. rd.segment_flow_start.",
             "single writer per history so apply order = issue order; the layout class in signatures is derived from the history",
             "DESIGN.md §4 C04"),
+    "C08": ("exploration",
+            "runtime monitoring: brute-force zone scan vs every pruning structure, built by the real flush/compaction and probed through the query path's pruners",
+            "The engine flushes and compacts generated events into segments with up to ~60 zones; vunit c08 reads zone membership back by key and "
+            "asks RangePruner (SuRF), XorPruner (zone XOR index and field XOR filter), EnumPruner (bitmaps), TemporalPruner (calendar + per-zone "
+            "time index) and the context ZoneIndex for candidate zones of ~500 probes per shard and level; every zone with a satisfying row "
+            "(independent typed comparison in python) must be a candidate whenever the structure answers.",
+            "trusts the repo's ColumnReader for zone membership by key; a structure that declines (None) is not judged",
+            "DESIGN.md §4 C08"),
 }
 
 PENDING_REASON = "check not built yet in this session (see DESIGN.md §10 for the order); no claim is made"
